@@ -16,6 +16,7 @@ import logging
 import os
 import sys
 import tempfile
+import threading
 import time
 from pathlib import Path
 from typing import Any, Dict, List, Optional, Tuple
@@ -38,6 +39,9 @@ TRUSTED = [
     "change the flag (no setattr/__dict__ tricks); the flag starts False (HAPServerHandler.__init__)",
     "harness/ref/httpc.py reference controller (pair-verify, TLV, h11 client parsing), harness/ref/tlv8.py, generators",
     "h11 (request parsing / response framing) and asyncio are exercised, not modelled, in this property",
+    "C03_noninterference is per request (dispatch): unsolicited writes to an unverified connection (EVENT messages, a delayed "
+    "snapshot shared with another session) are judged by this harness's busy-accessory oracle on the real code, and are the "
+    "subject of C12/C13's theorems (events only to verified+subscribed connections; nothing held for a lost connection)",
 ]
 
 CANARY_VALUE = "CNRYVAL5e1a77"
@@ -100,6 +104,21 @@ class FakeTransport(asyncio.Transport):
         return self.closed
 
 
+class VLoop(asyncio.SelectorEventLoop):
+    """Event loop on a virtual clock: timers (event coalescing, timeouts) fire when `advance` moves
+    the clock past them, never by waiting."""
+
+    def __init__(self):
+        super().__init__()
+        self._vt = 1000.0
+
+    def time(self):
+        return self._vt
+
+    def advance(self, dt: float):
+        self._vt += dt
+
+
 def _pyhap():
     """Import pyhap from the tree under check (HAP_REPO or the editable /repo install)."""
     import pyhap  # noqa: F401
@@ -115,11 +134,14 @@ def _pyhap():
 class World:
     """One accessory driver with canaries planted, no network, no files."""
 
-    def __init__(self, paired: bool, shape: str = "sync"):
+    def __init__(self, paired: bool, shape: str = "sync", virtual: bool = False, gated: bool = False):
         accessory, accessory_driver, const, hap_handler, hap_protocol = _pyhap()
         self.mods = (accessory, accessory_driver, const, hap_handler, hap_protocol)
         self.paired, self.shape = paired, shape
-        self.loop = asyncio.new_event_loop()
+        self.loop = VLoop() if virtual else asyncio.new_event_loop()
+        # gated: a snapshot, once started, stays in flight until open_gate()
+        self.gated, self.gate_open = gated, not gated
+        self._agate, self._tgate = asyncio.Event(), threading.Event()
         asyncio.set_event_loop(self.loop)
         self.tmp = tempfile.mkdtemp(prefix="verif-c03-")
         self.snapshot_calls = 0
@@ -141,10 +163,14 @@ class World:
 
         def sync_snapshot(_self, info):
             world.snapshot_calls += 1
+            if world.gated:
+                world._tgate.wait(30)
             return CANARY_SNAPSHOT
 
         async def async_snapshot(_self, info):
             world.snapshot_calls += 1
+            if world.gated:
+                await world._agate.wait()
             return CANARY_SNAPSHOT
 
         def mk(name, aid, with_snapshot):
@@ -245,8 +271,26 @@ class World:
         self._port += 1
         return Conn(self, ("10.1.1.1", self._port))
 
+    def spin(self, n: int = 8):
+        """Run what is ready (callbacks, task steps), without waiting for anything."""
+        for _ in range(n):
+            self.loop.run_until_complete(asyncio.sleep(0))
+
+    def advance(self, dt: float):
+        """Move the virtual clock and run the timers that became due."""
+        self.loop.advance(dt)
+        self.spin()
+
+    def open_gate(self):
+        self.gate_open = True
+        self._agate.set()
+        self._tgate.set()
+
     def drain(self):
         loop = self.loop
+        if not self.gate_open:
+            self.spin()  # a snapshot is deliberately in flight: do not wait for it
+            return
         for _ in range(40):
             loop.run_until_complete(asyncio.sleep(0))
             pending = [t for t in asyncio.all_tasks(loop) if not t.done()]
@@ -257,6 +301,7 @@ class World:
 
     def close(self):
         try:
+            self.open_gate()
             self.drain()
             self.loop.run_until_complete(self.loop.shutdown_default_executor())
         finally:
@@ -304,10 +349,10 @@ def states_for(paired: bool) -> List[str]:
     )
 
 
-def reach(world: World, state: str) -> Tuple[Conn, List[str]]:
-    """Open a connection and bring it into `state`; returns the connection and a trace of what the
-    exempt routes answered (diagnostics)."""
-    c = world.connect()
+def reach(world: World, state: str, conn: Optional["Conn"] = None) -> Tuple[Conn, List[str]]:
+    """Open a connection (or take `conn`) and bring it into `state`; returns the connection and a trace
+    of what the exempt routes answered (diagnostics)."""
+    c = conn if conn is not None else world.connect()
     trace: List[str] = []
 
     def post(path: bytes, body: bytes):
@@ -453,6 +498,225 @@ def observed(res) -> Dict[str, Any]:
     return {"status": r.status, "content_type": ct.decode() if ct else None, "body": hx(r.body)}
 
 
+# --------------------------------------------------------------------------- busy accessory
+
+REUSED_PEER = ("10.3.3.3", 3333)
+V1_PEER, V2_PEER, ADMIN_PEER, FRESH_PEER = ("10.3.0.1", 4001), ("10.3.0.2", 4002), ("10.3.0.3", 4003), ("10.3.0.9", 4009)
+TERMINATIONS = ["connection-close", "idle-timeout", "bad-frame", "bad-http", "pairing-removed", "peer"]
+
+
+def _verified_conn(world: World, peer, ident: bytes = CANARY_CTRL_ID) -> Conn:
+    """A controller session (plaintext inside the session, as C19 drives it): the privilege flag and
+    the controller id are what pair-verify would have set."""
+    import uuid
+
+    c = Conn(world, peer)
+    c.p.handler.is_encrypted = True
+    c.p.handler.client_uuid = uuid.UUID(ident.decode())
+    return c
+
+
+def _chars(world: World):
+    cached = getattr(world, "_busy_chars", None)
+    if cached is None:
+        cached = world._busy_chars = _find_chars(world)
+    return cached
+
+
+def _find_chars(world: World):
+    serial = on = bright = None
+    for a in world.accessories():
+        for sv in a.services:
+            for ch in sv.characteristics:
+                if ch.value == CANARY_VALUE and serial is None:
+                    serial = (a, ch)
+            if sv.display_name == "Lightbulb" and on is None:
+                on, bright = (a, sv.get_characteristic("On")), (a, sv.get_characteristic("Brightness"))
+    return serial, on, bright
+
+
+def _subscribe_and_prepare(world: World, c: Conn):
+    items = [{"aid": a.aid, "iid": a.iid_manager.get_iid(ch), "ev": True} for a, ch in _chars(world)]
+    c.request(b"PUT", b"/characteristics", json.dumps({"characteristics": items}).encode())
+    c.request(b"PUT", b"/prepare", json.dumps({"ttl": 5000, "pid": 21}).encode())
+
+
+def _app_changes(world: World, n: int):
+    """The application changes values (the string one keeps carrying the canary)."""
+    (_, serial), (_, on), (_, bright) = _chars(world)
+    serial.set_value(f"{CANARY_VALUE}-{n}")
+    bright.set_value(20 + n)
+    on.set_value(n % 2 == 0)
+
+
+def _snapshot_body(world: World, dims: str) -> bytes:
+    w, h = (640, 480) if dims == "same" else (320, 240)
+    return json.dumps({"image-width": w, "image-height": h, "resource-type": "image", "aid": world.snapshot_aid()}).encode()
+
+
+def _terminate(world: World, x: Conn, cause: str):
+    """End connection x; for the accessory-initiated causes the loop then reports the loss."""
+    if cause == "connection-close":
+        x.send(httpc.http_request(b"GET", b"/accessories", headers=[(b"Connection", b"close")]), b"GET")
+    elif cause == "idle-timeout":
+        x.p.check_idle(time.time() + 91 * 3600)
+    elif cause == "bad-frame":
+        x.p.hap_crypto = world.mods[4].HAPCrypto(b"\x11" * 32)
+        try:
+            x.p.data_received(b"\x05\x00" + b"\x99" * 21)
+        except Exception:  # noqa: BLE001  (C04/C19's concern)
+            pass
+    elif cause == "bad-http":
+        x.send(b"\x00\x01 not http\r\n\r\n")
+    elif cause == "pairing-removed":
+        admin = _verified_conn(world, ADMIN_PEER)
+        admin.request(b"POST", b"/pairings", httpc.pairings_remove(CANARY_USER_ID))
+    world.spin()
+    try:
+        x.p.connection_lost(None)  # asyncio reports the loss (after a close, or because the peer left)
+    except Exception:  # noqa: BLE001
+        pass
+    world.spin()
+
+
+def run_busy(spec: Dict[str, Any]) -> Dict[str, Any]:
+    """One unverified connection on a busy accessory; returns everything written to it after it
+    reached its state, and the digest changes in the window of each of its requests."""
+    world = World(True, spec["shape"], virtual=True, gated=True)
+    try:
+        v1 = _verified_conn(world, V1_PEER)
+        _subscribe_and_prepare(world, v1)
+        if spec["kind"] == "busy":
+            v2 = _verified_conn(world, V2_PEER)
+            v2.request(b"POST", b"/resource", _snapshot_body(world, spec.get("dims", "same")))
+            for _ in range(200):  # the snapshot is now in flight (executor thread started / coroutine awaiting)
+                if world.snapshot_calls:
+                    break
+                time.sleep(0.005)
+                world.spin(2)
+            _app_changes(world, 1)
+            world.advance(1.0)
+            u = Conn(world, FRESH_PEER)
+        else:
+            x = _verified_conn(world, REUSED_PEER, CANARY_USER_ID if spec["cause"] == "pairing-removed" else CANARY_CTRL_ID)
+            _subscribe_and_prepare(world, x)
+            _app_changes(world, 1)
+            world.advance(1.0)
+            _terminate(world, x, spec["cause"])
+            u = Conn(world, REUSED_PEER)  # same source address and port, never verifies
+        u, trace = reach(world, spec["state"], conn=u)
+        mark = len(u.t.out)
+        windows = []
+        method = bytes.fromhex(spec["method"])
+        for tgt, body in spec["requests"]:
+            if u.t.closed:
+                break
+            before = world.digest()
+            u.send(httpc.http_request(method, bytes.fromhex(tgt), bytes.fromhex(body)), method)
+            after = world.digest()
+            windows.append([k for k in before if before[k] != after[k]])
+        _app_changes(world, 2)
+        world.advance(1.0)
+        world.open_gate()
+        world.drain()
+        _app_changes(world, 3)
+        world.advance(1.0)
+        world.spin()
+        return {"tail": b"".join(u.t.out[mark:]), "windows": windows, "trace": trace, "verified_flag": bool(u.p.handler.is_encrypted),
+                "v1_events": b"".join(v1.t.out).count(b"EVENT/1.0")}
+    finally:
+        world.close()
+
+
+def busy_problems(spec: Dict[str, Any], res: Dict[str, Any]) -> List[Tuple[str, str]]:
+    """Everything written to the unverified transport until quiescence is judged."""
+    import re
+
+    tail = res["tail"]
+    problems: List[Tuple[str, str]] = []
+    served = []
+    if b"EVENT/1.0" not in tail:
+        resps, _trailing = httpc.parse_responses(tail, [bytes.fromhex(spec["method"])] * 50, eof=False)
+        served = [r.status for r in resps if 200 <= r.status < 300 and not httpc.is_pairing_auth_error(r.body)]
+    else:
+        served = [int(x) for x in re.findall(rb"HTTP/1\.1 (2\d\d) [^\r\n]*\r\n[Cc]ontent-[Tt]ype: (?:image/jpeg|application/hap\+json)", tail)]
+    if served:
+        problems.append(("C03:unverified-request-served", f"answered {served[0]} (not a refusal)"))
+    if b"EVENT/1.0" in tail:
+        problems.append(("C03:event-sent-to-unverified-connection",
+                         f"{tail.count(b'EVENT/1.0')} unsolicited EVENT message(s) with characteristic values written to the unverified connection"))
+    for label, needle in [("characteristic value", CANARY_VALUE.encode()), ("accessory name", CANARY_NAME.encode()),
+                          ("snapshot bytes", CANARY_SNAPSHOT[2:14]), ("admin controller id", CANARY_CTRL_ID),
+                          ("user controller id", CANARY_USER_ID)] + [("attribute database " + t.decode(), t) for t in DB_TOKENS]:
+        if needle in tail:
+            problems.append(("C03:canary-in-response", f"bytes written to the unverified connection contain the {label}"))
+            break
+    changed = sorted({k for win in res["windows"] for k in win})
+    if changed:
+        problems.append(("C03:state-changed", f"{', '.join(changed)} changed in the window of the unverified request"))
+    return problems
+
+
+def busy_specs(ctx: Ctx, world: World, deep: bool) -> List[Dict[str, Any]]:
+    rng = ctx.rng
+    specs = []
+    shapes = ["async", "sync", "bridge"] if deep else ["async"]
+    states = states_for(True) if deep else ["fresh", "verify-m1", "verify-m3-badsig"]
+    routes = [(m, p) for m, p, _h in route_table(world) if p not in EXEMPT]
+    for shape in shapes:
+        w = world if world.shape == shape else None
+        tmp = w or World(True, shape)
+        try:
+            for m, p in routes:
+                reqs = [[hx(t), hx(b)] for t, b in valid_bodies(tmp, m, p)] + [[hx(p.encode()), hx(b)] for b in junk_bodies(rng, 2)]
+                # one request per connection: a second request behind a delayed answer makes the pump close
+                for st_ in states:
+                    for dims in (["same", "other"] if p == "/resource" else ["same"]):
+                        for rq in (reqs if deep or st_ == "fresh" else reqs[:1]):
+                            specs.append({"kind": "busy", "shape": shape, "state": st_, "method": hx(m.encode()), "requests": [rq],
+                                          "dims": dims, "route": f"{m} {p}"})
+                for cause in TERMINATIONS:
+                    for st_ in (["fresh", "verify-m1"] if deep else ["fresh"]):
+                        for rq in (reqs[:3] if deep else reqs[:1]):
+                            specs.append({"kind": "reuse", "shape": shape, "state": st_, "method": hx(m.encode()), "requests": [rq],
+                                          "cause": cause, "route": f"{m} {p}"})
+        finally:
+            if w is None:
+                tmp.close()
+    return specs
+
+
+def run_busy_cases(ctx: Ctx, deep: bool):
+    st = ctx.stats
+    probe = World(True, "async")
+    try:
+        specs = busy_specs(ctx, probe, deep)
+    finally:
+        probe.close()
+    for spec in specs:
+        res = run_busy(spec)
+        problems = busy_problems(spec, res)
+        tag = f"busy:{spec['dims']}-snapshot-in-flight" if spec["kind"] == "busy" else f"reuse-after:{spec['cause']}"
+        st.hit("op", tag)
+        st.hit("outcome", "busy:PROBLEM" if problems else "busy:refused-and-silent")
+        if res["v1_events"]:
+            st.hit("outcome", "busy:events-delivered-to-the-subscribed-controller")
+        st.case(["busy", spec], True)
+        if problems and not any(f.signature == problems[0][0] for f in ctx.failures):
+            sig = problems[0][0]
+            best = spec
+            for rq in spec["requests"]:  # shrink to one request if one suffices
+                cand = dict(spec, requests=[rq])
+                if any(s_ == sig for s_, _ in busy_problems(cand, run_busy(cand))):
+                    best = cand
+                    break
+            what = (f"{spec['route']} in state {spec['state']} on a busy accessory (verified controllers subscribed, prepared write, "
+                    f"{spec.get('dims')}-dimension snapshot in flight, values changing, {spec['shape']})") if spec["kind"] == "busy" else (
+                    f"{spec['route']} in state {spec['state']} on a connection reusing the address of a verified, subscribed "
+                    f"connection ended by {spec['cause']} ({spec['shape']})")
+            ctx.fail(sig, f"{what}: " + "; ".join(d for _, d in problems), best)
+
+
 # --------------------------------------------------------------------------- run
 
 
@@ -576,6 +840,7 @@ def run(ctx: Ctx, model: bool = True, deep: Optional[bool] = None):
             run_world(ctx, world, plan(ctx, world, deep), lines, impls, metas)
         finally:
             world.close()
+    run_busy_cases(ctx, deep)
     if not model:
         return
     answers = run_model_parallel("C03", lines)
@@ -615,6 +880,21 @@ def search(ctx: Ctx):
 
 
 def replay(ctx: Ctx, r):
+    if r.get("kind") in ("busy", "reuse"):
+        res = run_busy(r)
+        probs = busy_problems(r, res)
+        print("scenario:", r["kind"], {k: r[k] for k in ("shape", "state", "route", "dims", "cause") if k in r})
+        print("state reached via:", res["trace"], "verified flag:", res["verified_flag"])
+        for tgt, body in r["requests"]:
+            print("unverified request:", bytes.fromhex(r["method"]), bytes.fromhex(tgt), bytes.fromhex(body)[:80])
+        print("written to the unverified transport:", res["tail"][:400])
+        print("digest changes per request window:", res["windows"])
+        if probs:
+            ctx.fail(probs[0][0], "; ".join(d for _, d in probs), r)
+        for f in ctx.failures:
+            print("FAILS:", f.signature, f.description)
+        print("verdict:", "property violated on this input" if ctx.failures else "holds on this input")
+        return 1 if ctx.failures else 0
     world = World(r["paired"], r["shape"])
     try:
         conn, trace = reach(world, r["state"])
